@@ -104,6 +104,7 @@ CHECKS["C13"] = {
     "assumptions": ["reference codec is faithful", "sink connections accept every write"],
     "jobs": [
         {"pkg": MUX, "run": "^TestVerif_C13_Scenarios$", "checks": {"quick": 1500, "thorough": 150000}, "shards": {"thorough": 16}, "timeout": {"quick": 300}},
+        {"pkg": MUX, "run": "^TestVerif_C13_SessionClose$", "checks": {"quick": 300, "thorough": 20000}, "shards": {"thorough": 8}, "timeout": {"quick": 300}},
         {"pkg": MUX, "run": "^TestVerif_C13_Stress$", "realtime": True, "checks": {"quick": 60, "thorough": 3000}, "shards": {"thorough": 4}, "timeout": {"quick": 300}},
         {"pkg": MUX, "run": "^TestVerif_C13_OpenIDs$", "checks": {"quick": 150, "thorough": 5000}, "timeout": {"quick": 300}},
         {"pkg": MUX, "run": "^TestVerif_C13_Stress$", "realtime": True, "checks": {"thorough": 300}, "race": True, "tiers": ["thorough"], "env": {"VERIF_RACE": "1"}},
